@@ -29,8 +29,9 @@ MANIFEST = {
     "text": "Coq theorems over an executable restart model (coq/Restart/Recover.v: LoadAofFile expiry filter, "
             "GetLockCommandExpriedTime, HandleLoad replayed through the lock-engine model): conversion lemmas (seconds: "
             "re-armed deadline within 1 s, minutes: within 61 s), emission rules (persist-immediately => record in the "
-            "granting step, never-persist => no record, default => first expiry-wheel insertion with age >= delay) and the "
-            "simulation C07_partial for histories without re-entrancy/updates; the millisecond unit and persistence "
+            "granting step, never-persist => no record, default => first expiry-wheel insertion with age >= delay), the "
+            "all-expired restart and the fold structure of recover; the general simulation (recovered = persisted live "
+            "holds for every history) is not proved, only differential-tested; the millisecond unit and persistence "
             "delays beyond the re-check horizon are refuted by concrete witnesses (replayed on the real code).",
     "note": "Model tied to the source by a three-way differential run (full in-process node before the stop / fresh "
             "process after the restart / extracted model) on seeded histories; AofChannel goroutines = order-preserving "
